@@ -11,7 +11,7 @@ CHECK_DEADLOCK FALSE
 """
 
 
-def run_blocks(v, tag, module, name, cases, consts, bs=100, needs_sem=False, timeout=3000):
+def run_blocks(v, tag, module, name, cases, consts, bs=100, needs_sem=False, timeout=3000, carrier=2):
     """Run a TraceBlocks-style module.  cases=None: spec mode (cases enumerated inside TLC)."""
     wd = workdir(name)
     env = {}
@@ -19,7 +19,7 @@ def run_blocks(v, tag, module, name, cases, consts, bs=100, needs_sem=False, tim
         path = os.path.join(wd, 'cases.ndjson')
         write_ndjson(path, cases)
         env['CASES'] = path
-    c = consts + ('\n MaxCarrier = 2\n MaxCarrierApp = 2' if needs_sem else '')
+    c = consts + (f'\n MaxCarrier = {carrier}\n MaxCarrierApp = 2' if needs_sem else '')
     res = run_tlc(module, CFG.format(bs=bs, consts=c), wd, env=env, timeout=timeout)
     tlc_must_be_clean(res, name)
     done = sum(d[2] for d in res.dones)
